@@ -20,6 +20,11 @@ CHECKS = {
   text="Kernel-checked: fmt_bal/fmtItems_bal/fmtList_bal (mutual induction over unbounded nesting) giving C16_well_nested — an independent stack-discipline reader accepts the structured lines of every successfully printed object under every option record: openers and keyword lines at depth × indent, END at the opener's indentation, '# TYPE' with end_comment; C16_lines_joined and C16_indent_exact (text = rendered lines joined by newlinechar, each starting with lvl × indent spacers); C16_aligned_column and C16_aligned_kv (value column = first multiple of max(1, indent) past the longest simple keyword, ≥ 1 blank). The model is tied to pprint.py by exact-string correspondence on corpus and schema-generated dictionaries × option sets; an independent text-level line reader is the oracle on real dumps output.",
   note="Trusted: Lean kernel; hand model of pprint.py/quoter.py (exact-string correspondence each run); Gen/Props + Gen/Vocab regenerated from schemas and tokens.py; ASCII case/strip functions; Python float division as Nat division; root key/value blocks (outside the 19 block types) are printed one level in and only shown balanced at depth 1.",
   ref="§6 C16"),
+ "C06": dict(
+  technique="Lean 4 proof by mutual structural induction: printed line content is invariant under every layout option record; separate_complex_types is a stable partition/permutation; + exact-string correspondence and real reload oracle",
+  text="Kernel-checked: C06_layout_invariant — for EVERY two option records that agree on quote and separate_complex_types (any indent, spacer string, newline string, end_comment, align_values) and every dictionary or list of roots, printing fails with the same error or yields the same sequence of (kind, key text, value text), comment lines aside (fmt_sim/fmtItems_sim/fmtList_sim by mutual induction over unbounded nesting); C06_sep_stable/_perm/_idem — separate_complex_types is a stable partition of each object's keys (simple keys then block-valued keys, relative order kept), a permutation, idempotent. Tied to pprint.py by exact-string correspondence; the oracle reloads real dumps output under option sets drawn from the full 864+ product and compares with the default formatting (modulo the documented block reordering, computed independently).",
+  note="Trusted: Lean kernel; hand model of pprint.py (correspondence); Gen tables regenerated; that Lark maps equal token content to equal dictionaries is the parser/lexer gap, exercised by the oracle; the quote option is covered by the oracle and correspondence only (no theorem yet); strings containing the output quote are the documented exclusion.",
+  ref="§6 C06"),
 }
 NOT_APPLICABLE = {}
 ALL = [f"C{i:02d}" for i in range(1, 21)]
